@@ -628,7 +628,7 @@ func grpcDecodeTimeout(timeout string) (time.Duration, error) {
 	if err != nil || num < 0 {
 		return 0, protocolError("invalid timeout %q", timeout)
 	}
-	if num > 99999999 { // timeout must be ASCII string of at most 8 digits
+	if num > 99999999 || len(timeout) > 9 { // timeout must be ASCII string of at most 8 digits
 		return 0, protocolError("timeout %q is too long", timeout)
 	}
 	const grpcTimeoutMaxHours = 8
